@@ -126,6 +126,7 @@ func (x *Exec) cxEval(env *cxEnv, e cx) Term {
 			key := elemKey(es)
 			arrT := x.readFieldFrom(env, key, "(Array Int "+es+")", "(s_base "+b.S+")")
 			t := Term{S: fmt.Sprintf("(select %s (+ (s_off %s) %s))", arrT.S, b.S, i.S), Sort: es, T: et}
+			x.noteReadClk(env.live, t, env.ev.clk)
 			x.rigidLinkElem(env.live, b, i.S, t)
 			return t
 		}
@@ -439,6 +440,21 @@ func (x *Exec) cxCallTerm(env *cxEnv, y *cxCall) Term {
 		}
 		x.undecide("contract: as: unknown type in %s", y.cxs())
 		return v
+	case "deref":
+		pv := x.cxEval(env, y.Args[0])
+		if pv.T == nil {
+			x.undecide("contract: deref of untyped pointer in %s", y.cxs())
+			return tBool("true")
+		}
+		pt, ok := pv.T.Underlying().(*types.Pointer)
+		if !ok {
+			x.undecide("contract: deref of non-pointer in %s", y.cxs())
+			return tBool("true")
+		}
+		es := x.d.sortOf(pt.Elem())
+		t := x.readFieldFrom(env, "cell:"+es, es, pv.S)
+		t.T = pt.Elem()
+		return t
 	case "theNew":
 		id, _ := y.Args[0].(*cxIdent)
 		if id == nil {
@@ -458,7 +474,27 @@ func (x *Exec) cxCallTerm(env *cxEnv, y *cxCall) Term {
 	case "same":
 		a := x.cxEval(env, y.Args[0])
 		b := x.cxEval(env, y.Args[1])
+		if a.Sort == "Nil" {
+			a = x.d.zeroOfSort(b.Sort, b.T)
+		}
+		if b.Sort == "Nil" {
+			b = x.d.zeroOfSort(a.Sort, a.T)
+		}
 		return tBool(sEq(a.S, b.S))
+	case "implements":
+		v := x.cxEval(env, y.Args[0])
+		id, _ := y.Args[1].(*cxIdent)
+		if id != nil && v.Sort == "Iface" {
+			for _, imp := range x.unit.Pkg.Imports {
+				if imp.PkgPath == "go/ast" && imp.Types != nil {
+					if o := imp.Types.Scope().Lookup(id.Name); o != nil {
+						return tBool(x.hasDynType(env.live, v, o.Type()))
+					}
+				}
+			}
+		}
+		x.undecide("contract: implements needs an interface value and a go/ast interface name")
+		return tBool("true")
 	case "AssertsTo", "AssertVal", "IsIfaceParam":
 		id, _ := y.Args[len(y.Args)-1].(*cxIdent)
 		tp := x.typeParamNamed(id)
